@@ -639,6 +639,11 @@ func (u *URI) updateBytes(newURI, buf []byte) []byte {
 	switch newURI[0] {
 	case '?':
 		// query string only update
+		if n := bytes.IndexByte(newURI, '#'); n >= 0 {
+			// "?query#fragment": the fragment is no part of the query (RFC 3986 section 4.2)
+			u.SetHashBytes(newURI[n+1:])
+			newURI = newURI[:n]
+		}
 		u.SetQueryStringBytes(newURI[1:])
 		return append(buf[:0], u.FullURI()...)
 	case '#':
